@@ -206,79 +206,6 @@ impl<SP: StorageProvider> Replica<SP> {
         st.get_location(policy::addr(id, max_cut), &mut self.bufs.traversal.primary)
             .map_err(|e| format!("get_location: {e}"))
     }
-
-    /// One full sync session: `self` requests from `other`. Returns the addresses received.
-    /// `cache_req`: what self knows other has; `cache_resp`: what other knows self has.
-    pub fn sync_from<SP2: StorageProvider>(
-        &mut self,
-        other: &mut Replica<SP2>,
-        cache_req: &mut PeerCache,
-        cache_resp: &mut PeerCache,
-        session_no: u64,
-        stats: &mut SyncStats,
-    ) -> Result<Vec<Address>, SyncFail> {
-        let mut req = SyncRequester::new(self.gid, &DetRng(session_no));
-        let mut trx = self.trx();
-        let mut buf = vec![0u8; aranya_runtime::MAX_SYNC_MESSAGE_SIZE];
-        let (len, _sent) = {
-            let heads = trx.session_heads(cache_req);
-            req.poll(&mut buf, self.client.provider(), &heads, &mut self.bufs.traversal.primary)
-                .map_err(SyncFail::Sync)?
-        };
-        let SyncIncoming::Poll(poll) = SyncIncoming::decode(&buf[..len]).map_err(SyncFail::Sync)? else {
-            return Err(SyncFail::Other("poll did not decode as a poll".into()));
-        };
-        let mut resp = SyncResponder::new();
-        resp.receive(poll).map_err(SyncFail::Sync)?;
-        let mut target = vec![0u8; aranya_runtime::MAX_SYNC_MESSAGE_SIZE];
-        let mut received: Vec<Address> = Vec::new();
-        let mut responses = 0u64;
-        loop {
-            if !resp.ready() {
-                return Err(SyncFail::Other(format!("responder not ready after {responses} responses and no end message")));
-            }
-            let n = resp
-                .poll(&mut target, other.client.provider(), cache_resp, &mut other.bufs.traversal)
-                .map_err(SyncFail::Sync)?;
-            responses += 1;
-            if responses > 10_000 {
-                return Err(SyncFail::Other("session did not end after 10000 responses".into()));
-            }
-            match req.receive(&target[..n]).map_err(SyncFail::Sync)? {
-                Some(cmds) => {
-                    stats.responses += 1;
-                    stats.commands += cmds.len() as u64;
-                    for c in cmds.iter() {
-                        let a = c.address().map_err(|e| SyncFail::Other(format!("address: {e}")))?;
-                        stats.sent.push((*a.id.as_array(), a.max_cut.get()));
-                    }
-                    let cmds_v: Vec<_> = cmds.into_iter().collect();
-                    self.client
-                        .add_commands(&mut trx, &mut self.sink, &cmds_v, &mut self.bufs, MemSpill::new)
-                        .map_err(SyncFail::Client)?;
-                    let st = self.client.provider().get_storage(self.gid).map_err(|e| SyncFail::Other(e.to_string()))?;
-                    trx.flush(st).map_err(SyncFail::Client)?;
-                    for c in &cmds_v {
-                        if let Ok(a) = c.address() {
-                            received.push(a);
-                        }
-                    }
-                }
-                None => break,
-            }
-        }
-        stats.sessions += 1;
-        self.client
-            .commit(trx, &mut self.sink, &mut self.bufs, MemSpill::new)
-            .map_err(SyncFail::Client)?;
-        // a real transport records what the peer evidently has
-        if !received.is_empty() {
-            self.client
-                .update_heads(self.gid, received.iter().copied(), cache_req, &mut self.bufs.traversal.primary)
-                .map_err(SyncFail::Client)?;
-        }
-        Ok(received)
-    }
 }
 
 #[derive(Default, Debug)]
